@@ -34,7 +34,9 @@ RULE = (
     "A fifth of the resolvers hand their work to info.runtime.submit() and return what they get; "
     "every class of the unexpected-exception family gets its turn across cases and shards; "
     "arguments are occasionally named like parameters of library internals (func, self, fn, args, "
-    "kwargs).  "
+    "kwargs).  For queries whose reference result is clean, one coroutine resolver of the operation is made to "
+    "raise asyncio.CancelledError after its gate opens (three completion orders): the request has to fail with it. "
+    "Loader-style resolvers hand back exception instances as String values (values, never raised). "
     "Non-trivial = distinct (request, configuration, schedule) with >= 2 "
     "deferred resolvers."
 )
@@ -201,6 +203,53 @@ def run_config(ctx, rng, case, config, text, op, variables, ref, base_witness, m
                                            "example_order": [list(map(str, t)) for t in list(seen)[0]][:8]})
 
 
+def cancellation_probe(ctx, rng, case, text, op, variables, base):
+    """A coroutine resolver whose in-flight work is cancelled raises asyncio.CancelledError (a BaseException that is
+    no Exception). It is an unexpected resolver exception like any other: the overall result has to fail with it, it
+    must not become data, be swallowed, or leave the result pending - whatever completes before or after it."""
+    import asyncio
+
+    root_type = dict(case.ir.roots())[op.kind]
+    kw = {"variables": variables, "operation_name": op.name, "root": case.asyn.root_value(root_type)}
+
+    def setg(g):
+        case.asyn.gates = g
+
+    case.asyn.cancel_paths = ()
+    _out, trace = sched.run_asyncio(sched.Chooser(()), case.schema_async, text, dict(kw), False, setg)
+    paths = sorted(set(t[1:] for t in trace if t and t[0] == "gate"), key=repr)
+    if not paths:
+        return
+    victim = paths[rng.randrange(len(paths))]
+    try:
+        for k in range(3):
+            case.asyn.cancel_paths = (victim,)
+            ch = sched.Chooser((), random.Random("cancel:%d:%s" % (k, rng.random())) if k else None)
+            out, trace = sched.run_asyncio(ch, case.schema_async, text, dict(kw), False, setg)
+            ctx.evaluated()
+            ctx.count("cancellation_runs")
+            if not any(t[1:] == victim for t in trace if t and t[0] == "gate"):
+                ctx.count("cancellation_victim_not_reached")
+                continue
+            ctx.count("cancellation_delivered")
+            w = dict(base, config="asyncio-coroutines", cancelled_resolver_path=list(victim),
+                     completion_order=[list(map(str, t)) for t in trace])
+            if out[0] == "stuck":
+                ctx.violation("cancelled-resolver:result-pending", w, out[1])
+                return
+            if out[0] == "ok":
+                ctx.violation("cancelled-resolver:lost", w,
+                              "a coroutine resolver raised asyncio.CancelledError, the request completed normally "
+                              "(data %r)" % (out[1],))
+                return
+            if not isinstance(out[1], asyncio.CancelledError):
+                ctx.violation("cancelled-resolver:other-exception:%s" % type(out[1]).__name__, w, repr(out[1])[:200])
+                return
+            ctx.count("cancellation_surfaced")
+    finally:
+        case.asyn.cancel_paths = ()
+
+
 def run(ctx):
     rng = ctx.rng("cases")
     quick = ctx.tier == "quick"
@@ -246,12 +295,15 @@ def run(ctx):
             base = {"schema_sdl": case.sdl, "world_seed": case.world.seed, "document": text, "variables": variables}
             for config in CONFIGS:
                 run_config(ctx, rng, case, config, text, op, variables, ref, base, max_exh, n_samples)
+            if ref[0] == "ok" and op.kind == "query":
+                cancellation_probe(ctx, rng, case, text, op, variables, base)
     if ctx.shard % 2 == 0:
         stress(ctx, ctx.n(40))
     ctx.require("distinct_schedules:threadpool", 20)
     ctx.require("distinct_schedules:asyncio-coroutines", 10)
     ctx.require("distinct_schedules:asyncio-executor", 10)
     ctx.require("reference:ok", 5)
+    ctx.require("cancellation_surfaced", 3)
 
 
 # ---------------------------------------------------------------------------
